@@ -26,6 +26,14 @@ Proof.
   lia.
 Qed.
 
+Lemma spec_threshold_is : forall rf rep, 1 <= rf -> spec_threshold rf rep = success_threshold rf rep.
+Proof.
+  intros rf rep H. unfold spec_threshold, success_threshold, spec_quorum, writeQuorum.
+  destruct (Z.eqb_spec rep 0); [|reflexivity]. destruct (Z.eqb_spec rf 2); [reflexivity|].
+  Ltac Zify.zify_post_hook ::= Z.to_euclidean_division_equations.
+  lia.
+Qed.
+
 Definition bumps (ks : list okind) (x : sst) : sst := fold_left (fun x k => bump k x) ks x.
 
 Lemma bumps_app : forall k1 k2 x, bumps (k1 ++ k2) x = bumps k2 (bumps k1 x).
@@ -105,6 +113,9 @@ Qed.
 Lemma kinds_for_app : forall s l1 l2, kinds_for s (l1 ++ l2) = kinds_for s l1 ++ kinds_for s l2.
 Proof. intros. unfold kinds_for. apply flat_map_app. Qed.
 
+Lemma filter_len_le : forall (f : okind -> bool) l, (List.length (filter f l) <= List.length l)%nat.
+Proof. intros f l. induction l as [|x l IH]; cbn; [lia|]. destruct (f x); cbn; lia. Qed.
+
 (* counters of series s after consuming the prefix l of l ++ l' *)
 Lemma prefix_counters : forall n l l' s, (s < n)%nat ->
   let x := nth s (reach n l) sst0 in
@@ -118,7 +129,7 @@ Proof.
   intros n l l' s Hs. cbn zeta. rewrite reach_nth by exact Hs.
   pose proof (bumps_inv (kinds_for s l) sst0) as I. cbn zeta in I. cbn [succ fail confl sst0] in I.
   unfold successes_of, responses_of. rewrite kinds_for_app, filter_app, !app_length.
-  pose proof (filter_length_le is_ok (kinds_for s l')) as Hle.
+  pose proof (filter_len_le is_ok (kinds_for s l')) as Hle.
   lia.
 Qed.
 
@@ -265,8 +276,8 @@ Proof. intros. unfold responses_of. f_equal. apply Permutation_length. apply kin
 Lemma quorum_everywhere_perm : forall n q rs rs', Permutation rs rs' ->
   quorum_everywhere n q rs = quorum_everywhere n q rs'.
 Proof.
-  intros n q rs rs' H. unfold quorum_everywhere. apply forallb_ext. intro s.
-  rewrite (successes_of_perm s rs rs' H). reflexivity.
+  intros n q rs rs' H. unfold quorum_everywhere. induction (seq 0 n) as [|s l IH]; [reflexivity|].
+  cbn [forallb]. rewrite IH, (successes_of_perm s rs rs' H). reflexivity.
 Qed.
 
 Lemma fanout_order_independent : forall n nrep q ft rs rs', q + ft = nrep + 1 ->
@@ -332,7 +343,7 @@ Proof.
         destruct (fanout_ack_after_quorum n nrep q ft rs Hsum Hwf E) as [k [Hk Hqk]].
         exists k. split; [unfold rs, resps_of in Hk; rewrite map_length in Hk; exact Hk|].
         intros d obs Hd. cbn [pred_ok]. rewrite Er. cbn [Z.eqb Pos.eqb negb andb].
-        fold n q rs. eapply quorum_firstn_mono; eauto.
+        rewrite (spec_threshold_is rf rep Hrf). fold n q rs. eapply quorum_firstn_mono; eauto.
       * exists OFail. split; [reflexivity|]. split; [discriminate|]. intros _.
         destruct (quorum_everywhere n q rs) eqn:Eq; [|reflexivity].
         apply (fanout_ack_iff_quorum n nrep q ft rs Hsum Hwf) in Eq. congruence.
